@@ -143,7 +143,7 @@ def codes():
 
 def shard(ctx):
     thorough = ctx.tier == "thorough"
-    drive(ctx, herd_case(codes()), lambda c: run(ctx, c), 900 if thorough else 40, shrink=thorough, tag="ledger")
+    drive(ctx, herd_case(codes()), lambda c: run(ctx, c), 900 if thorough else 150, shrink=thorough, tag="ledger")
     # the world aggregate is the only row with every species (e.g. both camel herds and camelids): always run it
     from vlib.harness import Violation
     fixed = [("WOR", st_, f, g) for st_ in herd.STRATEGIES for f, g in ((0.0, 0.0), (0.5, 0.5), (2.0, 2.0))]
